@@ -149,6 +149,18 @@ class FileResolver(Resolver):
             original_cwd = os.getcwd()
             os.chdir(self._base_path)
 
+        try:
+            self._hash_artifacts(uris, hashes)
+
+        finally:
+            # Change back to original current working dir
+            if self._base_path:
+                os.chdir(original_cwd)
+
+        return hashes
+
+    def _hash_artifacts(self, uris, hashes):
+        """Helper to hash passed uris into passed hashes dict."""
         for path in uris:
             # Remove scheme prefix, but preserver to re-add later (see _mangle)
             path, prefix = self._strip_scheme_prefix(path)
@@ -202,12 +214,6 @@ class FileResolver(Resolver):
                         name = self._mangle(filepath, hashes, prefix)
                         hashes[name] = self._hash(filepath)
 
-        # Change back to original current working dir
-        if self._base_path:
-            os.chdir(original_cwd)
-
-        return hashes
-
 
 class OSTreeResolver(Resolver):
     """Resolver for OSTree repositories."""
@@ -258,14 +264,16 @@ class OSTreeResolver(Resolver):
             original_cwd = os.getcwd()
             os.chdir(self._base_path)
 
-        for path in uris:
-            # Remove scheme prefix, but preserver to re-add later
-            path = self._strip_scheme_prefix(path)
-            hashes[self._add_scheme_prefix(path)] = self._hash(path)
+        try:
+            for path in uris:
+                # Remove scheme prefix, but preserver to re-add later
+                path = self._strip_scheme_prefix(path)
+                hashes[self._add_scheme_prefix(path)] = self._hash(path)
 
-        # Change back to original current working dir
-        if self._base_path:
-            os.chdir(original_cwd)
+        finally:
+            # Change back to original current working dir
+            if self._base_path:
+                os.chdir(original_cwd)
 
         return hashes
 
